@@ -51,7 +51,9 @@ EvRemove == IsEv("Remove") /\ m' = Drop(m, Key(Ev.q)) /\ UNCHANGED <<now, dflt>>
 EvClear == IsEv("Clear") /\ m' = <<>> /\ UNCHANGED <<now, dflt>>
 EvAdv == IsEv("Adv") /\ now' = now + Ev.d /\ UNCHANGED <<m, dflt>>
 \* a crashed or hung execution is never acceptable
-EvFail == IsEv("CacheFail") /\ PrintT(<<"BAD", l>>) /\ UNCHANGED <<m, now, dflt>>
+EvFail == /\ IsEv("CacheFail")
+          /\ (IF Ev.what = "skipped" THEN PrintT(<<"SKIP", l>>) ELSE PrintT(<<"BAD", l>>))
+          /\ UNCHANGED <<m, now, dflt>>
 
 Next == EvBegin \/ EvReset \/ EvPut \/ EvPutNeg \/ EvGet \/ EvRemove \/ EvClear \/ EvAdv \/ EvFail
 Spec == Init /\ [][Next]_vars
